@@ -27,25 +27,28 @@ const (
 
 // Alphabets (ordered simplest first so that the first counterexample is the shortest).
 var (
-	opAddA        = MOp{K: "add", PID: 0x100, ST: stH264}
-	opAddB        = MOp{K: "add", PID: 0x101, ST: stAAC, Desc: "lang"}
-	opAddAuto     = MOp{K: "add", PID: 0, ST: stMeta, Desc: "sid"}
-	opRmA         = MOp{K: "rm", PID: 0x100}
-	opRmB         = MOp{K: "rm", PID: 0x101}
-	opRmX         = MOp{K: "rm", PID: 0x1ff}
-	opPcrA        = MOp{K: "pcr", PID: 0x100}
-	opPcrB        = MOp{K: "pcr", PID: 0x101}
-	opPcrX        = MOp{K: "pcr", PID: 0x1ff}
-	opTables      = MOp{K: "tables"}
-	opDataA1      = MOp{K: "data", PID: 0x100, Len: 10}
-	opDataAfit    = MOp{K: "data", PID: 0x100, Len: 170}
-	opDataAs1     = MOp{K: "data", PID: 0x100, Len: 169}
-	opDataAs2     = MOp{K: "data", PID: 0x100, Len: 168}
-	opDataA3      = MOp{K: "data", PID: 0x100, Len: 454}
-	opDataA17     = MOp{K: "data", PID: 0x100, Len: 170 + 16*184}
-	opDataARAI    = MOp{K: "data", PID: 0x100, Len: 50, AF: "raipcr"}
-	opDataAprv    = MOp{K: "data", PID: 0x100, Len: 400, AF: "priv10"}
-	opDataAopc    = MOp{K: "data", PID: 0x100, Len: 200, AF: "opcr"}
+	opAddA     = MOp{K: "add", PID: 0x100, ST: stH264}
+	opAddB     = MOp{K: "add", PID: 0x101, ST: stAAC, Desc: "lang"}
+	opAddAuto  = MOp{K: "add", PID: 0, ST: stMeta, Desc: "sid"}
+	opRmA      = MOp{K: "rm", PID: 0x100}
+	opRmB      = MOp{K: "rm", PID: 0x101}
+	opRmX      = MOp{K: "rm", PID: 0x1ff}
+	opPcrA     = MOp{K: "pcr", PID: 0x100}
+	opPcrB     = MOp{K: "pcr", PID: 0x101}
+	opPcrX     = MOp{K: "pcr", PID: 0x1ff}
+	opTables   = MOp{K: "tables"}
+	opDataA1   = MOp{K: "data", PID: 0x100, Len: 10}
+	opDataAfit = MOp{K: "data", PID: 0x100, Len: 170}
+	opDataAs1  = MOp{K: "data", PID: 0x100, Len: 169}
+	opDataAs2  = MOp{K: "data", PID: 0x100, Len: 168}
+	opDataA3   = MOp{K: "data", PID: 0x100, Len: 454}
+	opDataA17  = MOp{K: "data", PID: 0x100, Len: 170 + 16*184}
+	opDataARAI = MOp{K: "data", PID: 0x100, Len: 50, AF: "raipcr"}
+	opDataAprv = MOp{K: "data", PID: 0x100, Len: 400, AF: "priv10"}
+	opDataAopc = MOp{K: "data", PID: 0x100, Len: 200, AF: "opcr"}
+	// no PES data at all, only an adaptation field (with and without stuffing requested by the caller)
+	opDataA0pcr   = MOp{K: "data", PID: 0x100, AF: "pcr"}
+	opDataA0stp   = MOp{K: "data", PID: 0x100, AF: "noroomstuffpcr"}
 	opDataAnor    = MOp{K: "data", PID: 0x100, Len: 30, AF: "noroom"}
 	opDataAnorPCR = MOp{K: "data", PID: 0x100, Len: 30, AF: "noroompcr"}
 	opDataAnorRAI = MOp{K: "data", PID: 0x100, Len: 30, AF: "noroomrai"}
@@ -76,7 +79,7 @@ var (
 
 var muxFullAlpha = []MOp{
 	opAddA, opAddB, opAddAuto, opRmA, opRmB, opRmX, opPcrA, opPcrB, opPcrX, opTables,
-	opDataA1, opDataAfit, opDataAs1, opDataAs2, opDataA3, opDataA17, opDataARAI, opDataAprv, opDataAopc, opDataAnor, opDataAhdr,
+	opDataA1, opDataAfit, opDataAs1, opDataAs2, opDataA3, opDataA17, opDataARAI, opDataAprv, opDataAopc, opDataA0pcr, opDataA0stp, opDataAnor, opDataAhdr,
 	opDataB1, opDataBRAI, opDataAuto, opDataX,
 	opPktNull, opPktOwn, opPktAF, opPktShort, opPktBig, opPktStale, opPktWrap, opPktPriv0, opPktAF252, opDataApr0, opAddMany, opRmMany,
 }
